@@ -1,5 +1,6 @@
 //! Security simulators (feature security); descendant of crate::security for visibility.
 #![allow(dead_code, unused_imports, clippy::all)]
+pub mod ac18;
 pub mod crypto16;
 pub mod hs19;
 pub mod pipe;
